@@ -1,7 +1,7 @@
 HOOK_COMMITS = ['36a14d0']
 NOTES = ('Technique family: contract-based deductive verification of the real code (see DESIGN.md). Exit 0 = all obligations of the property discharged '
          'on the text extracted from /repo on this run; exit 1 = a named obligation failed (VIOLATION line, replay file); exit 2 = undecided (lost anchor, '
-         'unsupported construct, solver limit) and is never reported as a violation. Twelve genuine defects were found and repaired by fix: commits '
+         'unsupported construct, a trait-default assumption lost, solver limit) and is never reported as a violation. Twelve genuine defects were found and repaired by fix: commits '
          '(known_findings.json, DESIGN.md section 5).')
 
 CHECKS = {
@@ -86,7 +86,7 @@ CHECKS = {
     },
     'C16': {
         'text': 'Verus proves, per call and for every fair-queue socket type (ROUTER, DEALER, PULL, REP, SUB, XPUB): a recv that reports a peer\'s failure has removed everything the socket holds for that connection - the table entry with the write half AND the read half queued in the fair queue - and has changed nothing for any other peer; so the same failure cannot be reported again and no later send is routed there. '
-                'Sends: a failed write removes exactly that peer from table and rotation (round robin), a broken subscriber pipe removes exactly that subscriber and never fails the publish. REQ, which reads its peer directly, forgets a peer whose read failed. Four genuine defects were found this way and repaired (fix: commits): DEALER recv did not forget the failed peer at all; REP and SUB forgot the write half but left the read half queued, so recv reported the same dead connection on every call (20 of 20); REQ kept the peer and routed the next send to the dead connection.',
+                'Sends: a failed write removes exactly that peer from table and rotation (round robin), a broken subscriber pipe removes exactly that subscriber and never fails the publish. REQ, which reads its peer directly, forgets a peer whose read failed, and its send loop (like the shared round robin) drops the identities of forgotten peers from the rotation and terminates instead of spinning on them. Four genuine defects were found this way and repaired (fix: commits): DEALER recv did not forget the failed peer at all; REP and SUB forgot the write half but left the read half queued, so recv reported the same dead connection on every call (20 of 20); REQ kept the peer and routed the next send to the dead connection.',
         'design_ref': 'DESIGN.md 10.2h, 5 (F9-F12)',
         'note': 'Sequential scope; "released" = no table entry and no queued read half left (Rust then drops both halves); Drop, codec-internal buffers, descriptor counts and liveness ("never hangs") are not modelled.',
         'technique': 'Verus postconditions over the owned peer-table / stream-map model on every recv and peer_disconnected',
